@@ -233,9 +233,9 @@ def available (E : ReEnv) (cfg : Config) (req : Req) : Str :=
   let svcRoutes : List Route :=
     match cfg.router with
     | .curly =>
-      match Curly.detectWebService (tokenize req.path) cfg.services none with
-      | some (svc, _) => (Curly.selectRoutes E svc.built (tokenize req.path)).getD []
-      | none => []
+      match Curly.detectWebService E (tokenize req.path) cfg.services none with
+      | some (some (svc, _)) => (Curly.selectRoutes E svc.built (tokenize req.path)).getD []
+      | _ => []
     | .jsr =>
       match Jsr.detectDispatcher E cfg.services req.path with
       | some (some (svc, final)) => (Jsr.selectRoutes E svc.built final).getD []
